@@ -18,7 +18,7 @@ fi
 if [ "$WHAT" = revert ] || [ "$WHAT" = all ]; then
   # reverse patches of the fix commits: the property each fix belongs to is in KNOWN_FINDINGS.txt
   for f in /verif/mutants/revert/*.diff; do
-    h=$(basename $f .diff | sed 's/revert-//')
+    h=$(basename $f .diff | sed 's/revert-//; s/+.*//')
     P=$(grep "^fixed:" /verif/KNOWN_FINDINGS.txt | grep "$h" | sed 's/.*property=\(C[0-9]*\).*/\1/' | sort -u | tr '\n' ' ')
     [ -n "$P" ] && echo "$f $P" >> $LIST
   done
